@@ -150,6 +150,9 @@ func main() {
 			cmd.Env = append(cmd.Env, "VERIF_SLEEPSCHED=1")
 		}
 		out, _ := cmd.CombinedOutput()
+		if os.Getenv("VERIF_REPLAY_RAW") != "" {
+			fmt.Println(string(out))
+		}
 		shown := false
 		if *expect == "deadlock" && (strings.Contains(string(out), "panic: test timed out") || strings.Contains(string(out), "all goroutines are asleep")) {
 			fmt.Println("VERIF-REPLAY the native run hangs (test watchdog fired / runtime deadlock report)")
